@@ -95,6 +95,8 @@ def run(ctx):
     ctx.guard(rule_i, ctx, ix)
     ctx.guard(rule_j, ctx, ix)
     ctx.guard(rule_k, ctx, ix, reg)
+    ctx.guard(rule_l, ctx, ix)
+    ctx.guard(rule_m, ctx, ix)
 
 
 # ---------------------------------------------------------------------------------------
@@ -978,3 +980,48 @@ def rule_k(ctx, ix, reg):
         ctx.ob(R, f.construct + ' fallback', 'a function that is not reachable under its name is saved by value or refused loudly', ok,
                detail='%s has no by-value form (and does not raise) for functions that are not reachable under their name' % f.construct,
                where=f.where)
+
+
+def rule_l(ctx, ix):
+    """The in-place upgrades of old session records add what old files lack: a default is written under a key only when the key
+    is ABSENT.  A test of the stored value's truth ("empty or missing") also rewrites records that say "empty" on purpose."""
+    from .. import cond
+    R = 'C02.l'
+    ctx.describe(R, 'record upgrades write a default only for a key that is absent (not for one that holds an empty value)', floor=1)
+    f = ix.func('glue.core.state.apply_inplace_patches')
+    n = 0
+    for st in ast.walk(f.node):
+        if not (isinstance(st, ast.Assign) and len(st.targets) == 1 and isinstance(st.targets[0], ast.Subscript)
+                and isinstance(st.targets[0].slice, ast.Constant) and isinstance(st.targets[0].slice.value, str)):
+            continue
+        key = st.targets[0].slice.value
+        cont = unparse(st.targets[0].value)
+        pc = cond.path_condition(f.node, st, expand=False) or ('const', True)
+        ats = cond.atoms(pc)
+        absent_atom = "in|%r|%s" % (key, cont)
+        by_value = [a for a in ats if (repr(key) in a or ('"%s"' % key) in a) and not a.startswith('in|')]
+        if absent_atom not in ats and not by_value:
+            continue            # not a "fill in what is missing" statement
+        n += 1
+        try:
+            ok = absent_atom in ats and cond.implies(pc, cond.Not(cond.T(absent_atom))) and not by_value
+        except ValueError:
+            ok = False
+        ctx.ob(R, '%s %s[%r]' % (f.construct, cont, key), 'the default is written only when the key is absent', ok,
+               detail='apply_inplace_patches writes `%s` under `%s`, a test of the stored VALUE (%s): a record that stores an empty value '
+                      'on purpose (RadianTransform(coords=[]), the class default) is rewritten on load and the restored selection is '
+                      'evaluated with other coordinates transformed' % (norm(st), pc, ', '.join(by_value) or 'no absence test'),
+               where=where(f, st))
+    if n < 1:
+        raise AnalysisError('apply_inplace_patches: no default-filling statement recognised')
+
+
+def rule_m(ctx, ix):
+    """Categorical values come back from a session file in the memory order they were saved with (np.save keeps Fortran order):
+    the integer codes must be computed in one element order (C) whatever the memory layout."""
+    R = 'C02.m'
+    ctx.describe(R, 'flatten / reshape pairs of the array helpers (categorical codes) use the C element order', floor=2)
+    from . import common as _common
+    n = _common.check_element_order(ctx, R, ix, ['glue.utils.array'], what='the result is reshaped in C order')
+    if n < 2:
+        raise AnalysisError('C02.m: only %d flatten / reshape calls in glue.utils.array' % n)
